@@ -91,6 +91,8 @@ def main():
             elif r.returncode not in (0, 1):
                 detected[p] = {"exit": r.returncode, "note": "inconclusive/no check"}
             sh(f"rm -rf {root}/replays")
+            if p == pid and p in detected and "signatures" in detected[p] and "--all" not in sys.argv:
+                break  # the owning check detects it; the other checks are only consulted when it does not
         rec["detected_by_quick"] = detected
         rec["owner_detects"] = pid in detected and "signatures" in detected.get(pid, {})
     sh("rsync -a --delete --exclude target --exclude .git /repo/ /tmp/wf-agent-seedrun/repo/")
